@@ -110,6 +110,17 @@ def load_findings(pid):
 DEFAULT_REPLAY = None  # set by vlib.eqinst: generic replay through the encodings the goal mentions
 
 
+def _drop_jit_caches():
+    """replays build steppers eagerly; every lax.scan / jit of a fresh closure compiles a new executable that JAX keeps
+    alive, and after a few thousand of them XLA's CPU JIT cannot place code sections any more (ENOMEM, then SIGSEGV)"""
+    try:
+        import jax
+
+        jax.clear_caches()
+    except Exception:
+        pass
+
+
 class Obligation:
     __slots__ = ("name", "family", "goal", "assumptions", "replay", "expect", "timeout", "stretch", "meta", "text", "goal_text", "result", "kind")
 
@@ -214,13 +225,30 @@ class Check:
         s.add(z3.Not(goal))
         text = s.to_smt2()
         names = set(_DECL_RE.findall(text))
-        axs = relevant_axioms(names)
+        declared = set(names)
+        # defining facts of the Ackermannised square roots that occur (closure: a fact may mention further roots)
+        defs, frontier = [], set(names)
+        seen_defs = set()
+        while frontier:
+            nxt = set()
+            for nm in frontier:
+                ax = CTX.defs.get(nm)
+                if ax is not None and nm not in seen_defs:
+                    seen_defs.add(nm)
+                    defs.append(ax)
+                    k = ax.get_id()
+                    if k not in _axiom_names_cache:
+                        _axiom_names_cache[k] = _names_of(ax)
+                    nxt |= _axiom_names_cache[k] - names
+            names |= nxt
+            frontier = nxt
+        axs = defs + relevant_axioms(names)
         if axs:
             # append the relevant constant axioms textually (one serialisation of the big terms only)
             extra_names = set()
             for ax in axs:
                 extra_names |= _axiom_names_cache[ax.get_id()]
-            decls = "".join(f"(declare-fun {n} () Real)\n" for n in sorted(extra_names - names))
+            decls = "".join(f"(declare-fun {n} () Real)\n" for n in sorted(extra_names - declared))
             body = "".join(f"(assert {ax.sexpr()})\n" for ax in axs)
             cut = text.rfind("(check-sat)")
             text = text[:cut] + decls + body + "(check-sat)\n"
@@ -355,6 +383,7 @@ class Check:
                         rr = r2
                     else:
                         rr = {"reproduced": False, "detail": f"{rr.get('detail')} | generic replay: {r2.get('detail')}"}
+                _drop_jit_caches()
                 if rr.get("reproduced"):
                     key = next((k for k, _ in findings if fnmatch.fnmatch(o.name, k)), None)
                     if key is not None:
@@ -364,6 +393,24 @@ class Check:
                 else:
                     harness_err.append(f"{o.name}: sat but model does not replay ({rr.get('detail')})")
                 continue
+            # the solver gave no verdict (time-out / unknown).  Falsification probe: the generic replay (real code run at
+            # fixed stress points, encoding validated there, relation robustly false) may still exhibit a violation; it can
+            # never turn an inconclusive obligation into a pass
+            if o.kind == "solver" and DEFAULT_REPLAY is not None and st in ("timeout", "unknown") and os.environ.get("VERIF_PROBE", "1") != "0":
+                try:
+                    r2 = DEFAULT_REPLAY(o)({})
+                except Exception as ex:
+                    r2 = {"reproduced": False, "detail": f"probe raised {ex!r}"}
+                _drop_jit_caches()
+                if r2.get("reproduced"):
+                    r2["detail"] = "solver inconclusive (" + str(o.result.get("reason", st)) + "); found by the replay probe: " + str(r2.get("detail"))
+                    o.result["probe"] = "violation"
+                    key = next((k for k, _ in findings if fnmatch.fnmatch(o.name, k)), None)
+                    if key is not None:
+                        known.append((o, key, r2))
+                    else:
+                        violations.append((o, r2))
+                    continue
             inconclusive.append(o)
 
         code = EXIT_OK
